@@ -11,7 +11,7 @@
 From Coq Require Import List ZArith.
 Import ListNotations.
 From TV Require Import Lib.Obs C37.Model C37.Run C37.ProofsBase C37.ProofsMain C37.ProofsCheck C37.ProofsNoSpur2
-  C37.ProofsLive C37.ProofsLive2 C37.ProofsLive3 C37.ProofsCtx.
+  C37.ProofsLive C37.ProofsLive2 C37.ProofsLive3 C37.ProofsCtx C37.ProofsVar.
 
 (* MAIN: for every program, every set of futures already done at the call and every schedule
    (completion order, outcomes incl. cancellation, interleaving with single loop callbacks), once
@@ -142,6 +142,31 @@ Theorem C37_fast_path :
     exists o, status_of w = StSet o /\ ref (mkenv pre []) (body p) [] = (w_trace w, RFin o).
 Proof. exact fast_path. Qed.
 Print Assumptions C37_fast_path.
+
+(* Context variables (the glue seeded change C37_3 breaks).  The grammar has V.set(n), a logged read R(),
+   and `tok = V.set(n); try: b finally: V.reset(tok)`; the variable is part of the body's state, so the
+   main theorems above already say both forms read and restore the same values under every schedule.
+   Explicitly: a value set by the decorated coroutine is the value it reads back after ANY body q that
+   does not itself overwrite it -- whatever q awaits (pending futures, lists, moments, nested
+   coroutines) and however its resumptions are scheduled. *)
+Theorem C37_context_value_survives_suspensions :
+  forall n q pre s,
+    novarw q = true ->
+    let w1 := run (start_dec (set_then_read n q) (mkenv pre [])) s in
+    let w2 := run (start_dec (set_then_known n q) (mkenv pre [])) s in
+    w_ready w1 = [] -> w_ready w2 = [] ->
+    status_of w1 = status_of w2 /\ w_trace w1 = w_trace w2.
+Proof. exact context_value_survives. Qed.
+Print Assumptions C37_context_value_survives_suspensions.
+
+(* the seeded-change witness on the model: set after a resume from a PENDING future, then a moment, then read *)
+Theorem C37_context_witness :
+  let p := SSeq (SYield (YFut 0)) (SSeq (SVarSet 2) (SSeq (SYield YNone) SVarGet)) in
+  let s := [EvTick; EvDone 0 (FRes 7); EvTick; EvTick; EvTick] in
+  w_trace (run (start_dec p []) s) = [t_got (OInt 7); t_got ONone; t_var (OInt 2)] /\
+  w_trace (run (start_nat p []) s) = [t_got (OInt 7); t_got ONone; t_var (OInt 2)].
+Proof. vm_compute. split; reflexivity. Qed.
+Print Assumptions C37_context_witness.
 
 (* ---- witnesses of the two defects fixed in /repo (b6a1816, ace54d0), on the model of the fixed code ---- *)
 Definition witness_cancel : stmt :=
